@@ -3,7 +3,7 @@
    closing record's next pointer), Find (FindBitPacked = BoundedSortedUniformFind over the word fields with Pivot32, then the
    payload address and the child range read from this record's and the following record's next pointer).  No proofs here. *)
 From Coq Require Import ZArith List Bool.
-From Kenlm Require Import Base.Mem Gen.BitPacking Gen.SortedUniform C20.SearchModel.
+From Kenlm Require Import Base.Mem Gen.BitPacking Gen.SortedUniform C20.SearchModel C03.BhikshaModel.
 Import ListNotations.
 Local Open Scope Z_scope.
 
@@ -41,4 +41,35 @@ Definition mid_find (m : mid) (fuel : nat) (mem : Z) (word b e : Z) : option (op
                   ReadInt57 mem (m_base m) at_ (m_qb m) (Z.ones (m_qb m)),
                   ReadInt57 mem (m_base m) (at_ + m_qb m) (m_nb m) (Z.ones (m_nb m)),
                   ReadInt57 mem (m_base m) (at_ + m_qb m + m_tb m) (m_nb m) (Z.ones (m_nb m))))
+  end.
+
+(* ---- BitPackedMiddle<ArrayBhiksha>: the next field of a record holds only the low m_nb bits of the pointer (ArrayBhiksha::WriteNext:
+   `value & mask` inline, and the offset table filled for `value >> bits`); ReadNext rebuilds both ends of the child range from the
+   offset table (C03/BhikshaModel.v) and the inline bits of this and the following record.  State = (memory, offset slots 1..). *)
+Definition midA_insert (m : mid) (st : Z * list Z) (i : Z) (rec : Z * Z * Z) : Z * list Z :=
+  let '(mem, offs) := st in
+  let '(word, payload, next) := rec in
+  (mid_insert m mem i (word, payload, Z.land next (Z.ones (m_nb m))), fst (write_next (m_nb m) (offs, []) i next)).
+
+Fixpoint midA_inserts (m : mid) (st : Z * list Z) (i : Z) (recs : list (Z * Z * Z)) : Z * list Z :=
+  match recs with
+  | [] => st
+  | r :: rest => midA_inserts m (midA_insert m st i r) (i + 1) rest
+  end.
+
+(* BitPackedMiddle::FinishedLoading: WriteNext(insert_index, next_end), then ArrayBhiksha::FinishedLoading sets offset slot 0 to 0 *)
+Definition midA_finish (m : mid) (st : Z * list Z) (n next_end : Z) : Z * list Z :=
+  let '(mem, offs) := st in
+  (mid_finish m mem n (Z.land next_end (Z.ones (m_nb m))), 0 :: fst (write_next (m_nb m) (offs, []) n next_end)).
+
+(* Find: the same search; the child range through ArrayBhiksha::ReadNext.  `count` = number of records + 1 (the closing record). *)
+Definition midA_find (m : mid) (fuel : nat) (count : nat) (st : Z * list Z) (word b e : Z) : option (option (Z * Z * Z * Z)) :=
+  let '(mem, offs) := st in
+  match mid_find m fuel mem word b e with
+  | Some (Some (p, pay, _, _)) =>
+      let inls := map (fun k => ReadInt57 mem (m_base m) (Z.of_nat k * m_tb m + m_wb m + m_qb m) (m_nb m) (Z.ones (m_nb m))) (seq 0 count) in
+      let '(cb, ce) := read_next (m_nb m) (offs, inls) p in
+      Some (Some (p, pay, cb, ce))
+  | Some None => Some None
+  | None => None
   end.
